@@ -7,6 +7,14 @@ ENGINES = [
      "kind_free_text": "bounded stand-in: the same contracts evaluated at run time on the real code over an exhaustively enumerated small scope "
                        "(always labelled bounded, never counted as proved)"},
 ]
-CHECKS = {}
+CHECKS = {
+    "C14": dict(category="other", technique="contract-based deductive verification (pyvc VCs from the real AST + z3) with a bounded run-time-contract stand-in",
+                text="P: _get_labels_for_confusion_matrix is verified for every number of distinct values, pos_label given/None, int and str encodings "
+                     "(postconditions from the property: positive label last, raises exactly for unsupported encodings) and the four rate functions are "
+                     "verified to return their own cell of sklearn's row-normalised confusion matrix with the caller's weights and labels (wiring obligations "
+                     "against an assumed dependency contract). X (bounded): all label/prediction vectors up to n=3 (quick) / 5 (thorough) x 7 encodings x weights "
+                     "compared with exact first-principles rationals, incl. scalar-ness, range, complements and role swap.",
+                note="Trusted: sklearn.metrics.confusion_matrix and numpy.unique contracts (assumed, exercised by the stand-in)."),
+}
 _PENDING = "check not built yet in this round (work in progress; see DESIGN.md section 10) - nothing is claimed for this property"
 NOT_APPLICABLE = {f"C{i:02d}": _PENDING for i in range(1, 21) if f"C{i:02d}" not in CHECKS}
